@@ -48,7 +48,7 @@ ASSUMPTIONS = [
 MIN_NONTRIVIAL = {"quick": 48000, "thorough": 70000}
 MIN_OUTCOMES = {"quick": 29000, "thorough": 40000}
 MIN_SUB_TRACES = {"null1": 7500, "analytic": 18000, "null2": 3800, "affine-add": 500, "analytic2": 4400, "scale": 3700, "linear": 960,
-                  "reduce": 5900, "lame": 70, "bspline": 570, "ic-zero": 160, "ic-units": 3400, "ic-exp": 6}
+                  "reduce": 5900, "lame": 70, "bspline": 570, "ic-zero": 160, "ic-units": 3400, "ic-exp": 6, "reuse": 200}
 
 LOSS_CLASS = {
     "grad_loss": "GradLoss", "bending_loss": "Bending", "curvature_loss": "Curvature", "diffusion_loss": "Diffusion",
@@ -200,6 +200,8 @@ class Judge:
         cfg = c.get("cfg")
         if cfg:
             parts.append(f"mode={cfg['mode']}/D={cfg['D']}/sp={cfg['sp']}")
+        if c["sub"] == "reuse":
+            parts.append(f"mode={c['modkw']['mode']}/sp={c['modkw']['sp']}/D0={c['steps'][0]['D']}/reduction={c['reduction']}")
         for k in ("edge", "pair", "units", "ac", "opt", "kind"):
             if k in c:
                 parts.append(f"{k}={c[k]}")
@@ -841,7 +843,109 @@ def case_ic_exp(J: Judge, case):
             J.bad("not-shrinking", f"error {errs[i]:.4e} at amplitude {case['amps'][i]} vs {errs[i - 1]:.4e} at {case['amps'][i - 1]}")
 
 
+def module_class(fn):
+    import deepali.losses.bspline as LB
+    import deepali.losses.flow as LF
+
+    return getattr(LB, LOSS_CLASS[fn]) if fn == "bspline_bending_loss" else getattr(LF, LOSS_CLASS[fn])
+
+
+def snapshot(mod):
+    return {k: repr(v) for k, v in sorted(vars(mod).items())}
+
+
+def case_reuse(J: Judge, case):
+    """ONE module object called on a sequence of fields of different shape / dtype / dimension: every call must give
+    the value of a fresh module (and the analytic value where one is defined), and must leave vars(module) unchanged."""
+    from checks.c12_derivatives import coef_lattice
+
+    fn, args, red = case["fn"], case["args"], case["reduction"]
+    mk = case["modkw"]
+    first = case["steps"][0]
+    D0 = first["D"]
+    sp_arg, _ = spacing_form(mk["sp"], D0, 1, tuple(first["shape"]), case.get("seed", 0))
+    if fn == "bspline_bending_loss":
+        kw = {"reduction": red}
+        if mk.get("stride") is not None:
+            kw["stride"] = mk["stride"]
+    else:
+        kw = dict(args, mode=mode_arg(mk["mode"]), spacing=sp_arg, reduction=red)
+        if mk.get("stride") is not None:
+            kw["stride"] = mk["stride"]
+    cls = module_class(fn)
+    st, mod = J.call("construct", lambda: cls(**kw))
+    if st == "raises":
+        J.raised("construct", mod)
+        return
+    snap0 = snapshot(mod)
+    for n, step in enumerate(case["steps"]):
+        D, shape = step["D"], tuple(step["shape"])
+        cfg = {"D": D, "shape": list(shape), "sp": mk["sp"], "mode": "bspline" if fn == "bspline_bending_loss" else mk["mode"], "N": 1,
+               "dtype": step["dtype"], "seed": case.get("seed", 0), "stride": mk.get("stride")}
+        tag = f"call {n + 1} ({D}-D {list(shape)} {step['dtype']})"
+        if fn == "bspline_bending_loss":
+            coef = coef_lattice("generic", 1, D, shape, case.get("seed", 0) + n)
+            u = torch.tensor(coef, dtype=DT[step["dtype"]])
+            B = None
+        else:
+            spec = field_spec(P.generic_field(D, case.get("seed", 0), 2 if order_of(fn) == 2 else 1, n % 3), f"gen{n}")
+            B = BuiltF(cfg, [spec])
+            u = B.u
+        st, got = J.call(f"step{n}", mod, u)
+        if st == "raises":
+            J.raised(f"call{n + 1}", got)
+            continue
+        st, want = J.call(f"fresh{n}", lambda: cls(**kw)(u))
+        snap = snapshot(mod)
+        if snap != snap0:
+            changed = sorted(k for k in set(snap) | set(snap0) if snap.get(k) != snap0.get(k))
+            J.bad(f"call{n + 1}/attributes-changed", f"{tag}: vars(module) changed by the call: " + ", ".join(f"{k}: {snap0.get(k)} -> {snap.get(k)}" for k in changed)[:300])
+        if not isinstance(got, torch.Tensor):
+            J.bad(f"call{n + 1}/type", f"{tag}: returned {type(got).__name__}")
+            continue
+        g = got.detach().double().numpy()
+        J.outcomes.append((n, np.round(g, 5).tobytes()))
+        eps = EPS[step["dtype"]]
+        if st == "ok" and isinstance(want, torch.Tensor):
+            w = want.detach().double().numpy()
+            if w.shape != g.shape:
+                J.bad(f"call{n + 1}/vs-fresh/shape", f"{tag}: shape {g.shape}, fresh module {w.shape}")
+            else:
+                J.close(f"call{n + 1}/vs-fresh", f"{tag}: reused module vs fresh module", g, w, C * eps * float(np.abs(w).max()) + 1e-300)
+        # analytic anchor
+        if fn == "bspline_bending_loss":
+            stt = stride_tuple(mk.get("stride"), D)
+            h = [2.0 / (shape[D - 1 - d] - 1) for d in range(D)]
+            exp = spline_energy(coef[0], stt, np.array(h))
+            cmax = float(np.abs(coef).max())
+            tol = C * (eps * D ** 3 * (cmax * 8.0 / min(h) ** 2) ** 2 + EPS["f32"] * 4 * float(exp.max()))
+            if red == "none" and g.shape == (1, 1) + exp.shape:
+                J.close(f"call{n + 1}/value", f"{tag}: spline energy", g[0, 0], exp, tol)
+            elif red == "mean" and g.ndim == 0:
+                J.close(f"call{n + 1}/value", f"{tag}: mean spline energy", float(g), float(exp.mean()), tol)
+            continue
+        f = B.fields[0]
+        o = order_of(fn)
+        eff_mode = "sobel" if (o == 2 and B.mode == "default") else B.mode
+        m = margin_of(eff_mode, o)
+        if o == 1:
+            e = analytic_value(fn, args, A=f.A)
+            mag = max(abs(e), abs(analytic_value(fn, args, A=np.abs(f.A))))
+        else:
+            e = analytic_value(fn, args, H=hessian(f))
+            mag = abs(e)
+        tol = tol_loss(B, fn, args, mag)
+        if red == "none":
+            if g.shape != (1, 1) + tuple(B.oshape):
+                J.bad(f"call{n + 1}/shape", f"{tag}: shape {g.shape} expected {(1, 1) + tuple(B.oshape)}")
+            else:
+                J.close(f"call{n + 1}/value", f"{tag}: analytic value", g[(0, 0) + P.interior(B.oshape, m)], e, tol)
+        elif m == 0 and g.ndim == 0:
+            J.close(f"call{n + 1}/value", f"{tag}: analytic mean", float(g), e, tol)
+
+
 DISPATCH = {
+    "reuse": case_reuse,
     "null1": case_null1, "analytic": case_analytic, "null2": case_null2, "affine-add": case_affine_add, "analytic2": case_analytic2,
     "scale": case_scale, "linear": case_linear, "reduce": case_reduce, "lame": case_lame, "bspline": case_bspline,
     "ic-zero": case_ic_zero, "ic-units": case_ic_units, "ic-exp": case_ic_exp,
@@ -863,7 +967,7 @@ def exec_case(case) -> Judge:
 def shapes(D, tier):
     if D == 2:
         s = [(5, 7), (6, 5), (8, 6)]
-        return s if tier == "quick" else s + [(7, 7), (5, 5), (9, 6)]
+        return s[:2] if tier == "quick" else s + [(7, 7), (5, 5), (9, 6)]
     s = [(5, 6, 7), (6, 5, 5)]
     return s if tier == "quick" else s + [(7, 5, 6), (5, 5, 5)]
 
@@ -921,11 +1025,12 @@ def cases_of(shard):
         if not full:
             combos, combos6 = [("ND", 2, "f64"), ("none", 1, "f32")], [("ND", "f64"), ("none", "f32")]
         elif tier == "quick" and D == 3:
-            # quick, 3-D: complete spacing form x N product in float64, float32 on the two extreme elements
-            if mode in ("prewitt", "sobel", "bspline"):  # the three expensive modes: every spacing form with N=2
-                combos = [(sp, 2, "f64") for sp in sps] + [("vec", 1, "f64"), ("none", 1, "f32")]
-            else:
-                combos = list(itertools.product(sps, (1, 2), ["f64"])) + [("vec", 2, "f32"), ("none", 1, "f32")]
+            # quick, 3-D: every spacing form with N=2 in float64, plus (vec, N=1, f64) and (None, N=1, f32)
+            combos = [(sp, 2, "f64") for sp in sps] + [("vec", 1, "f64"), ("none", 1, "f32")]
+            combos6 = list(itertools.product(sps, ["f64"]))
+        elif tier == "quick":
+            # quick, 2-D: complete spacing form x N product in float64, float32 on the two extreme elements
+            combos = list(itertools.product(sps, (1, 2), ["f64"])) + [("vec", 2, "f32"), ("none", 1, "f32")]
             combos6 = list(itertools.product(sps, ["f64"])) + [("vec", "f32")]
         else:
             combos, combos6 = list(itertools.product(sps, (1, 2), dts)), list(itertools.product(sps, dts))
@@ -994,6 +1099,22 @@ def cases_of(shard):
                             for form in forms_for(dt, stride):
                                 out.append({"sub": "reduce", "cfg": c, "fn": fn, "args": args, "form": form, "fields": fl})
                             out.append({"sub": "scale", "cfg": c, "fn": fn, "args": args, "form": "functional", "fields": fl, "cs": [-1.0, 2.0, -0.5, 3.0], "ks": [2.0, 0.5]})
+    elif kind == "reuse":
+        D, mode = shard["D"], shard["mode"]
+        A = {2: [5, 7], 3: [5, 6, 7]}
+        Bf = {2: [9, 12], 3: [8, 7, 9]}
+        oD = 5 - D
+        for fn, args in FIRST_ORDER + SECOND_ORDER + ([("bspline_bending_loss", {})] if mode == "bspline" else []):
+            for sp in ("none", "scalar", "vec"):
+                if fn == "bspline_bending_loss" and sp != "none":
+                    continue
+                steps = [{"D": D, "shape": A[D], "dtype": "f32"}, {"D": D, "shape": Bf[D], "dtype": "f32"}, {"D": D, "shape": A[D], "dtype": "f32"},
+                         {"D": D, "shape": Bf[D], "dtype": "f64"}]
+                if sp != "vec":  # a per-axis spacing fixes the dimension; None / scalar allow a field of the other dimension
+                    steps = steps + [{"D": oD, "shape": A[oD], "dtype": "f32"}, {"D": D, "shape": A[D], "dtype": "f64"}]
+                for red in ("none", "mean"):
+                    out.append({"sub": "reuse", "fn": fn, "args": args, "form": "module", "reduction": red, "seed": seed,
+                                "modkw": {"mode": mode, "sp": sp, "stride": 2 if mode == "bspline" else None}, "steps": steps})
     elif kind == "bspline":
         D, shape = shard["D"], list(shard["shape"])
         for sp, N, dt in itertools.product(SP_QUICK, (1, 2), dts):
@@ -1082,6 +1203,8 @@ def shards(tier: str, seed: int):
                     out.append({"tier": tier, "seed": seed, "kind": "deriv", "D": D, "mode": mode, "shape": list(shape), "part": part, "full": tuple(shape) in fs})
         for shape in shapes(D, tier)[: (2 if tier == "quick" else 4)]:
             out.append({"tier": tier, "seed": seed, "kind": "bspline", "D": D, "shape": list(shape)})
+        for mode in (("default", "central", "bspline") if tier == "quick" else ALL_MODES):
+            out.append({"tier": tier, "seed": seed, "kind": "reuse", "D": D, "mode": mode})
         out.append({"tier": tier, "seed": seed, "kind": "ic-zero", "D": D})
         for units in ("cube", "voxel", "world"):
             out.append({"tier": tier, "seed": seed, "kind": "ic-units", "D": D, "units": units})
@@ -1110,6 +1233,8 @@ def bounds(tier):
         "ic_grids": {"D2": len(IC_GRIDS[2]), "D3": len(IC_GRIDS[3])},
         "ic_units": ["cube", "voxel", "world"],
         "ic_options": 10,
+        "module_reuse": {"depth": "4 calls (6 where the spacing form allows a change of dimension) on ONE module object", "modes": ["default", "central", "bspline"] if tier == "quick" else ALL_MODES,
+                         "spacing": ["none", "scalar", "vec"], "reductions": ["none", "mean"], "sequence": "shape A f32, finer shape B f32, A f32, B f64, (other D f32, A f64)"},
         "shards": len(shards(tier, 0)),
     }
 
